@@ -291,9 +291,12 @@ namespace Pistache::Http
             if (!match_until(' ', cursor))
                 return State::Again;
 
+            // convert the text of the token only (strtol on the raw buffer skips
+            // white space and can run past the end of the received data)
             char* end;
-            auto code = strtol(codeToken.rawText(), &end, 10);
-            if (*end != ' ')
+            const std::string codeText = codeToken.text();
+            auto code                  = strtol(codeText.c_str(), &end, 10);
+            if (codeText.empty() || end != codeText.c_str() + codeText.size())
                 raise("Failed to parse return code");
             response->code_ = static_cast<Http::Code>(code);
 
